@@ -30,6 +30,9 @@ import "zzmod/d"
 func NewT() *d.T {
 	t := &d.T{} // U-SAMENAME-LIT
 	t.F = 1 // U-SAMENAME-ASSIGN
+	n := new(d.T) // U-SAMENAME-NEW
+	var z d.T // U-SAMENAME-VAR
+	_, _ = n, z
 	return t
 }
 
@@ -74,6 +77,8 @@ func ZZCrossImmCtor() {
 	CheckExact(ru.Diags, []Expect{
 		{fu, nd.LineOf(crossSrcU, "U-SAMENAME-LIT"), "CTOR01", hasCtor},
 		{fu, nd.LineOf(crossSrcU, "U-SAMENAME-ASSIGN"), "IMM01", imm},
+		{fu, nd.LineOf(crossSrcU, "U-SAMENAME-NEW"), "CTOR02", hasCtor},
+		{fu, nd.LineOf(crossSrcU, "U-SAMENAME-VAR"), "CTOR03", hasCtor},
 		{fu, nd.LineOf(crossSrcU, "U-ASSIGN"), "IMM01", imm},
 		{fu, nd.LineOf(crossSrcU, "U-COMPOUND"), "IMM02", imm},
 		{fu, nd.LineOf(crossSrcU, "U-MUTABLE"), "IMM01", nd.And(imm, nd.Not(mutable))},
